@@ -3,6 +3,7 @@ import SJ.Drv.C01
 import SJ.Drv.C10
 import SJ.Drv.C12
 import SJ.Drv.C13
+import SJ.Drv.C19
 import SJ.Drv.C05
 import SJ.Drv.C03
 /-!
@@ -21,6 +22,7 @@ def allHandlers : List (String × Handler) :=
     C10.handlers,
     C12.handlers,
     C13.handlers,
+    C19.handlers,
     C05.handlers,
     C03.handlers,
   ]
